@@ -3,6 +3,7 @@
 From Coq Require Import NArith QArith List Bool Permutation Lia.
 From PL.Sem Require Import Program Sem SemBasics PermProofs.
 Import ListNotations.
+Local Open Scope nat_scope.
 
 Lemma filter_length_le {X} (p q : X -> bool) l :
   (forall x, In x l -> p x = true -> q x = true) -> length (filter p l) <= length (filter q l).
@@ -26,6 +27,9 @@ Proof.
     + rewrite (H x (or_introl eq_refl) Ep). simpl. lia.
     + destruct (q x); simpl; lia.
 Qed.
+
+Lemma filter_len_le {X} (p : X -> bool) l : length (filter p l) <= length l.
+Proof. induction l as [|x l IH]; simpl; [lia|]. destruct (p x); simpl; lia. Qed.
 
 Section Strat.
 Variable A : Type.
@@ -74,7 +78,7 @@ Proof.
   induction fuel as [|f IH]; intros T0 X H0 H; simpl in H; [discriminate|].
   destruct (subset (step A eqb R U Ng T0) T0).
   - inversion H; subst. exact H0.
-  - apply (IH _ _ (fun a Ha => _) H). Unshelve.
+  - apply (IH (step A eqb R U Ng T0) X); [|exact H]. intros a Ha.
     unfold step in Ha. apply filter_In in Ha. destruct Ha as [HaU Hd].
     apply derivable_inv in Hd. destruct Hd as [b [Hin [Hp Hn]]].
     apply (deriv_intro R U Ng a b HaU Hin); [|exact Hn]. intros c Hc. apply H0. apply Hp. exact Hc.
@@ -204,7 +208,7 @@ Definition anti_level (E : list edge) (a : A) : nat := length (filter (above E a
 Definition level (E : list edge) (a : A) : nat := length (neg_targets A eqb E) - anti_level E a.
 
 Lemma anti_level_le E a : anti_level E a <= length (neg_targets A eqb E).
-Proof. unfold anti_level. apply filter_length. Qed.
+Proof. unfold anti_level. apply filter_len_le. Qed.
 
 Section WithE.
 Variable E : list edge.
@@ -281,6 +285,7 @@ Proof.
 Qed.
 
 (* ------------------------------------------------------------------ bridge to wsum / prob_gen *)
+Local Open Scope Q_scope.
 Lemma worlds_weight_irrel cs : forall acc w wt R, In (wt, R) (worlds A cs acc w) ->
   forall w', exists wt', In (wt', R) (worlds A cs acc w').
 Proof.
@@ -331,8 +336,99 @@ Proof.
     { apply (subset_spec A eqb eqb_spec). apply (subset_spec A eqb eqb_spec) in TV.
       intros a Ha. apply TV. apply filter_In in Ha. tauto. }
     rewrite K. reflexivity. }
-  apply Qeq_bool_iff in Z. rewrite Z. simpl.
-  destruct (Qeq_bool _ 0); discriminate.
+  apply Qeq_bool_iff in Z. rewrite Z. cbn [negb].
+  match goal with |- (if ?c then _ else _) <> _ => destruct c end; discriminate.
+Qed.
+
+
+(* ------------------------------------------------------------------ D. the boolean decides the graph property *)
+Local Open Scope nat_scope.
+Inductive path (E : list edge) : A -> A -> Prop :=
+| path_one : forall x y s, In (x, y, s) E -> path E x y
+| path_step : forall x y z s, In (x, y, s) E -> path E y z -> path E x z.
+Definition neg_cycle (E : list edge) : Prop :=
+  exists h b, In (h, b, true) E /\ (b = h \/ path E b h).
+
+Lemma path_snoc E x y z s : path E x y -> In (y, z, s) E -> path E x z.
+Proof.
+  induction 1 as [x y s' H|x y w s' H Hp IH]; intro Hz.
+  - apply (path_step E x y z s' H). apply (path_one E y z s Hz).
+  - apply (path_step E x y z s' H). apply IH. exact Hz.
+Qed.
+
+Lemma succs_inv (E : list edge) x y : In y (succs A eqb E x) -> exists s, In (x, y, s) E.
+Proof.
+  unfold succs. rewrite in_map_iff. intros [[[x' y'] s] [Ey Hf]]. simpl in Ey. subst y'.
+  apply filter_In in Hf. destruct Hf as [Hin He]. simpl in He. apply eqb_spec in He. subst x'.
+  exists s. exact Hin.
+Qed.
+
+Lemma close_iter_sound (E : list edge) b fuel : forall R0 R,
+  (forall x, In x R0 -> path E b x) -> close_iter A eqb fuel E R0 = Some R -> forall x, In x R -> path E b x.
+Proof.
+  induction fuel as [|f IH]; intros R0 R H0 H; simpl in H; [discriminate|].
+  destruct (subset (flat_map (succs A eqb E) R0) R0).
+  - inversion H; subst. exact H0.
+  - apply (IH (dedup A eqb (R0 ++ flat_map (succs A eqb E) R0)) R); [|exact H].
+    intros x Hx. apply (proj1 (dedup_In A eqb eqb_spec x _)) in Hx. apply in_app_or in Hx. destruct Hx as [Hx|Hx].
+    + apply H0. exact Hx.
+    + apply in_flat_map in Hx. destruct Hx as [y [Hy Hx]]. apply succs_inv in Hx. destruct Hx as [s Hs].
+      apply (path_snoc E b y x s (H0 y Hy) Hs).
+Qed.
+
+Lemma reach_sound (E : list edge) b R : reach A eqb E b = Some R -> forall x, In x R -> path E b x.
+Proof.
+  unfold reach. apply close_iter_sound. intros x Hx. apply (proj1 (dedup_In A eqb eqb_spec x _)) in Hx.
+  apply succs_inv in Hx. destruct Hx as [s Hs]. apply (path_one E b x s Hs).
+Qed.
+
+Lemma reach_complete (E : list edge) b R : reach A eqb E b = Some R -> forall x, path E b x -> In x R.
+Proof.
+  intros H x Hp. apply reach_spec in H. destruct H as [H1 H2].
+  assert (forall y z, path E y z -> (y = b \/ In y R) -> In z R) as K.
+  { intros y z Hyz. induction Hyz as [y z s He|y w z s He Hp' IH]; intro Hy.
+    - destruct Hy as [Hy|Hy]; [subst y; apply H1|apply (H2 y Hy)]; apply (succs_In E _ z s He).
+    - apply IH. right. destruct Hy as [Hy|Hy]; [subst y; apply H1|apply (H2 y Hy)]; apply (succs_In E _ w s He). }
+  apply (K b x Hp). left. reflexivity.
+Qed.
+
+Theorem neg_cycle_free_true_sound (E : list edge) : neg_cycle_free_E A eqb E = Some true -> ~ neg_cycle E.
+Proof.
+  unfold neg_cycle_free_E. intros H [h [b [He Hc]]].
+  destruct (ncf_fold E _ H b (neg_target_In E h b He)) as [R [Er Hcl]].
+  unfold closes_neg_cycle in Hcl.
+  assert (existsb (fun e : edge => snd e && eqb (snd (fst e)) b && (eqb (fst (fst e)) b || mem (fst (fst e)) R)) E = true) as K; [|rewrite K in Hcl; discriminate].
+  apply existsb_exists. exists (h, b, true). split; [exact He|]. simpl. rewrite (eqb_refl A eqb eqb_spec). simpl.
+  apply orb_true_iff. destruct Hc as [Hc|Hc].
+  - left. subst. apply (eqb_refl A eqb eqb_spec).
+  - right. apply (mem_spec A eqb eqb_spec). apply (reach_complete E b R Er h Hc).
+Qed.
+
+Lemma ncf_fold_false (E : list edge) NT :
+  fold_right (fun (b : A) (r : option bool) =>
+     match r, reach A eqb E b with
+     | Some ok, Some R => Some (ok && negb (closes_neg_cycle A eqb E b R))
+     | _, _ => None
+     end) (Some true) NT = Some false ->
+  exists b R, In b NT /\ reach A eqb E b = Some R /\ closes_neg_cycle A eqb E b R = true.
+Proof.
+  induction NT as [|x NT IH]; simpl; intro H; [discriminate|].
+  destruct (fold_right _ (Some true) NT) as [ok|] eqn:Ef; [|discriminate].
+  destruct (reach A eqb E x) as [R|] eqn:Er; [|discriminate].
+  inversion H as [H1]. destruct ok.
+  - simpl in H1. apply negb_false_iff in H1. exists x, R. auto.
+  - destruct (IH eq_refl) as [b [R' [K1 [K2 K3]]]]. exists b, R'. auto.
+Qed.
+
+Theorem neg_cycle_free_false_complete (E : list edge) : neg_cycle_free_E A eqb E = Some false -> neg_cycle E.
+Proof.
+  unfold neg_cycle_free_E. intro H. destruct (ncf_fold_false E _ H) as [b [R [Hb [Er Hcl]]]].
+  unfold closes_neg_cycle in Hcl. apply existsb_exists in Hcl. destruct Hcl as [[[h b'] s] [He Hc]]. simpl in Hc.
+  apply andb_true_iff in Hc. destruct Hc as [Hc1 Hc2]. apply andb_true_iff in Hc1. destruct Hc1 as [Hs Hb'].
+  subst s. apply eqb_spec in Hb'. subst b'. exists h, b. split; [exact He|].
+  apply orb_true_iff in Hc2. destruct Hc2 as [Hc2|Hc2].
+  - left. apply eqb_spec in Hc2. symmetry. exact Hc2.
+  - right. apply (mem_spec A eqb eqb_spec) in Hc2. apply (reach_sound E b R Er h Hc2).
 Qed.
 
 End Strat.
